@@ -39,6 +39,10 @@ type connIDManager struct {
 	removeStatelessResetToken func(protocol.StatelessResetToken)
 	queueControlFrame         func(wire.Frame)
 
+	// maxActiveConnIDs is the active_connection_id_limit we advertised, if it differs
+	// from protocol.MaxActiveConnectionIDs (0 = not set). [UQUIC]
+	maxActiveConnIDs int
+
 	closed bool
 }
 
@@ -65,7 +69,7 @@ func (h *connIDManager) Add(f *wire.NewConnectionIDFrame) error {
 	if err := h.add(f); err != nil {
 		return err
 	}
-	if len(h.queue) >= protocol.MaxActiveConnectionIDs {
+	if len(h.queue) >= h.connectionIDLimit() {
 		return &qerr.TransportError{ErrorCode: qerr.ConnectionIDLimitError}
 	}
 	return nil
